@@ -1,13 +1,18 @@
 // C15 H-RETARGET: BTC difficulty retargeting at an interval boundary (calculateNextWorkRequired through the real
 // getNextWorkRequired and through acceptBlockHeader) == independent 256-bit reference:
 //   new = old_target * clamp(actual_timespan, T/4, 4T) / T, capped at the pow limit, re-encoded in compact form.
-// Parameter set: timespan 40 s, spacing 10 s (interval 4).  Timestamps are case-split (long division forks per quotient bit).
+// Parameter set: timespan TS (default 40 s), spacing TS/4 (interval 4).  Timestamps are case-split (long division forks per
+// quotient bit).  The thorough tier repeats the harness with other timespans (-DTS=60, -DTS=44): other divisors and clamps.
 #include "common/btc_env.hpp"
 using namespace vh;
+#ifndef TS
+#define TS 40
+#endif
+#define SP (TS / 4)
 struct RP : BtcChainParamsRegTest {
   bool allowMin = false;
-  uint32_t getPowTargetTimespan() const noexcept override { return 40; }
-  uint32_t getPowTargetSpacing() const noexcept override { return 10; }
+  uint32_t getPowTargetTimespan() const noexcept override { return TS; }
+  uint32_t getPowTargetSpacing() const noexcept override { return SP; }
   bool getPowNoRetargeting() const noexcept override { return false; }
   bool getAllowMinDifficultyBlocks() const noexcept override { return allowMin; }
   uint256 getPowLimit() const override { return uint256::fromHex("00000000000000000000000000000000000000000000000000000000ffff7f00"); }  // == target of 0x1f7fffff, so the cap is reachable without the 256-bit product wrapping
@@ -34,9 +39,9 @@ extern "C" __attribute__((noinline)) void h_retarget() {
   times[0] = 1000;
   t.bootstrapWithGenesis(mk(1, 0, times[0], bits[0]));
   for (int h = 1; h <= 3; h++) {                                               // heights 1..3: inside the interval
-    times[h] = times[h - 1] + verif_choice(0, 6) * 10;                         // 0..60 s per block: actual timespan 0..180 reaches both clamps (10 and 160)
+    times[h] = times[h - 1] + verif_choice(0, 6) * SP;                         // 0..6 spacings per block: actual timespan 0..18 spacings reaches both clamps (T/4 and 4T)
     uint32_t want;
-    if (p.allowMin && times[h] > times[h - 1] + 20) want = LIMIT;
+    if (p.allowMin && times[h] > times[h - 1] + 2 * SP) want = LIMIT;
     else if (p.allowMin) { int k = h - 1; while (k > 0 && k % 4 != 0 && bits[k] == LIMIT) k--; want = bits[k]; }
     else want = bits[h - 1];
     bits[h] = want;
@@ -46,36 +51,36 @@ extern "C" __attribute__((noinline)) void h_retarget() {
     verif_check(t.acceptBlockHeader(nb, st), 5);
   }
   uint32_t actual = times[3] - times[0];
-  if (actual < 10) actual = 10;
-  if (actual > 160) actual = 160;
+  if (actual < TS / 4) actual = TS / 4;
+  if (actual > 4 * TS) actual = 4 * TS;
   bool ovf = false;
-  R256 n = rdiv32(rmul32(refSetCompact(bits[3]), actual, ovf), 40);
+  R256 n = rdiv32(rmul32(refSetCompact(bits[3]), actual, ovf), TS);
   R256 limit = refSetCompact(LIMIT);
   if (ovf || rcmp(n, limit) > 0) n = limit;
   uint32_t expect = refGetCompact(n);
-  BtcBlock next = mk(5, 4, times[3] + 10, expect);
+  BtcBlock next = mk(5, 4, times[3] + SP, expect);
   uint32_t got = getNextWorkRequired(*t.getBestChain().tip(), next, static_cast<const BtcChainParams&>(p));
   verif_check(got == expect, 2);                                               // prescribed difficulty == reference
   ValidationState st;
   verif_check(t.acceptBlockHeader(next, st), 3);                               // a header carrying it is accepted
   ValidationState st2;
-  verif_check(!t.acceptBlockHeader(mk(6, 4, times[3] + 10, expect ^ 1), st2), 4);  // any other difficulty is refused
+  verif_check(!t.acceptBlockHeader(mk(6, 4, times[3] + SP, expect ^ 1), st2), 4);  // any other difficulty is refused
   // ---- the first block of the NEW period (height 5): unchanged difficulty, or the min-difficulty rule seen from behind a
   // retarget block (the walk back stops at the retarget block even when it carries the pow-limit difficulty)
-  bits[4] = expect; times[4] = times[3] + 10;
-  times[5] = times[4] + verif_choice(0, 3) * 10;
+  bits[4] = expect; times[4] = times[3] + SP;
+  times[5] = times[4] + verif_choice(0, 3) * SP;
   uint32_t want5;
-  if (p.allowMin && times[5] > times[4] + 20) want5 = LIMIT;
+  if (p.allowMin && times[5] > times[4] + 2 * SP) want5 = LIMIT;
   else if (p.allowMin) { int k = 4; while (k > 0 && k % 4 != 0 && bits[k] == LIMIT) k--; want5 = bits[k]; }
   else want5 = bits[4];
   BtcBlock b5 = mk(7, 5, times[5], want5);
   verif_check(getNextWorkRequired(*t.getBestChain().tip(), b5, static_cast<const BtcChainParams&>(p)) == want5, 6);
   ValidationState st5;
   verif_check(t.acceptBlockHeader(b5, st5), 7);
-  if (p.allowMin && expect == LIMIT && bits[3] != LIMIT && times[5] <= times[4] + 20) verif_cover(6);
-  if (actual == 10) verif_cover(1);
-  if (actual == 160) verif_cover(2);
+  if (p.allowMin && expect == LIMIT && bits[3] != LIMIT && times[5] <= times[4] + 2 * SP) verif_cover(6);
+  if (actual == TS / 4) verif_cover(1);
+  if (actual == 4 * TS) verif_cover(2);
   if (expect != bits[3]) verif_cover(3);
-  if (rcmp(n, limit) == 0 && actual > 40) verif_cover(4);
+  if (rcmp(n, limit) == 0 && actual > TS) verif_cover(4);
   if (p.allowMin && bits[3] == LIMIT && bits[0] != LIMIT) verif_cover(5);
 }
